@@ -52,8 +52,8 @@ func c07Profile(variant string, faults bool, early bool) func(c *sim.RunCtx) {
 		var mcreates, mcommits []mediaEv
 		model := &storeModel{cfg: cfg, objs: pp.objs, byTag: map[int]*upload{}}
 		m := newMedia(cfg)
-		before := gatherMetrics().indexDiscards("sim")
-		discards := func() bool { return gatherMetrics().indexDiscards("sim") != before }
+		before := indexDiscardCount()
+		discards := func() bool { return indexDiscardCount() != before }
 		shutdown := t.Chance(1, 4)
 		type relEvent struct {
 			Seq int
